@@ -321,6 +321,64 @@ theorem array_len_eq_sum (vs fs : List Val) (x : Val) (k n : Nat) :
   · simp [byteLen, sumLen, sumLen_eq_sum, foldLen_eq]
   · simp [byteLen, sumLen, sumLen_eq_sum, foldLen_eq]
 
+/-- **The measured length depends only on the abstract value** (and the constructor's declared
+    length) — not on the heap, the address the value is boxed at, the type tag, the header, what
+    the message held before, or whether the body is the original or a clone: two messages given
+    equal values measure equal, and a clone measures like its source.  (The value universe has no
+    notion of capacity, ring-buffer position or insertion order, so equal collections in different
+    in-memory layouts are the same `Val`; the correspondence runs build every value in several
+    layouts and require the implementation to agree with this function of the value.) -/
+theorem length_depends_only_on_value (h1 h2 : Heap) (m1 m2 : Msg) (c : Ctor) (T1 T2 : Ty) (v : Val) :
+    (m1.setContent h1 c T1 v).2.length = (m2.setContent h2 c T2 v).2.length ∧
+    (m1.setContent h1 c T1 v).2.chargedBits = (m2.setContent h2 c T2 v).2.chargedBits ∧
+    (∀ h' m', (m1.setContent h1 c T1 v).2.tryClone (m1.setContent h1 c T1 v).1 = (h', some m') →
+      m'.length = (m1.setContent h1 c T1 v).2.length) := by
+  obtain ⟨vt1, _, _, hmk1⟩ := mk_eq c h1 T1 v
+  obtain ⟨vt2, _, _, hmk2⟩ := mk_eq c h2 T2 v
+  refine ⟨?_, ?_, ?_⟩
+  · simp [Msg.setContent, hmk1, hmk2, Msg.length, Header.byteLen]
+  · simp [Msg.setContent, hmk1, hmk2, Msg.length, Msg.chargedBits, Header.byteLen]
+  · have key : ∀ (h : Heap) (b : Body) (h' : Heap) (b' : Body),
+        b.tryClone h = (h', some b') → b'.length = b.length := by
+      intro h b h' b' hc
+      unfold Body.tryClone at hc
+      split at hc
+      · cases hd : b.data with
+        | none => simp [hd] at hc
+        | some p =>
+          simp only [hd] at hc
+          cases hr : h.read b.vt.ty p with
+          | mk hx ov =>
+            cases ov with
+            | none => simp [hr] at hc
+            | some w =>
+              simp only [hr, Prod.mk.injEq, Option.some.injEq] at hc
+              obtain ⟨_, rfl⟩ := hc
+              rfl
+      · simp at hc
+    intro h' m' hc
+    simp only [Msg.setContent, hmk1, Msg.tryClone] at hc ⊢
+    split at hc
+    · rename_i hx bx hb
+      simp only [Prod.mk.injEq, Option.some.injEq] at hc
+      obtain ⟨_, rfl⟩ := hc
+      have := key _ _ _ _ hb
+      simp [Msg.length, this]
+    · simp at hc
+
+/-- collections measure the same in whatever order their elements are visited (hash maps and
+    sets iterate in an unspecified order; a wrapped and a contiguous deque visit the same
+    elements): the length is invariant under permutation of the members -/
+theorem seq_len_perm_invariant (vs vs' : List Val) (hp : vs.Perm vs') :
+    byteLen (.seq vs) = byteLen (.seq vs') ∧ byteLen (.array vs) = byteLen (.array vs') := by
+  have : sumLen vs = sumLen vs' := by
+    induction hp with
+    | nil => rfl
+    | cons x _ ih => simp [sumLen, ih]
+    | swap x y l => simp [sumLen]; omega
+    | trans _ _ ih1 ih2 => exact ih1.trans ih2
+  simp [byteLen, foldLen_eq, this]
+
 /-- the length of a derived struct does not depend on how its fields are grouped / nested -/
 theorem derived_len_flatten (xs ys : List Val) :
     byteLen (.struct (.struct xs :: ys)) = byteLen (.struct (xs ++ ys)) := by
@@ -353,6 +411,18 @@ example : lookup "a" (srun [.new "a" 1 0, .set "a" .plain tU32 vU32]).1.slots =
     some ⟨⟨1, 0⟩, some ⟨tU32, vU32, 4, true⟩⟩ := by rfl
 
 example : byteLen vEn = 10 := by rfl
+
+/-- hypothesis of `seq_len_perm_invariant`; a deque [a, bc] measures 3 whichever part is visited first -/
+example : [Val.str [97], Val.str [98, 99]].Perm [Val.str [98, 99], Val.str [97]] ∧
+    byteLen (.seq [.str [97], .str [98, 99]]) = 3 := ⟨List.Perm.swap _ _ _, by rfl⟩
+
+/-- hypothesis of the clone clause of `length_depends_only_on_value` -/
+example : (((⟨⟨1, 0⟩, none⟩ : Msg).setContent {} .plain tU32 vU32).2.tryClone
+      ((⟨⟨1, 0⟩, none⟩ : Msg).setContent {} .plain tU32 vU32).1).2 =
+    some ⟨⟨1, 0⟩, some ⟨some 1, 4, vtable tU32⟩⟩ := by rfl
+
+/-- a declared length of 2^29 bytes is charged (2^29 + 64) * 8 bits — more than `u32::MAX` -/
+example : ((⟨⟨1, 0⟩, none⟩ : Msg).setContent {} (.withLen 536870912) tU32 vU32).2.chargedBits = 4294967808 := by rfl
 
 /-- `[String; 3]` = ["abc", "", "z"]: 4 bytes — not `3 * 3` (first element times N) -/
 example : byteLen (.array [.str [97, 98, 99], .str [], .str [122]]) = 4 := by rfl
